@@ -285,11 +285,18 @@ class AsyncTunnelHTTPConnection(AsyncConnectionInterface):
                     connect_headers = merge_headers(
                         [(b"Host", target), (b"Accept", b"*/*")], self._proxy_headers
                     )
+                    # The "target" and "sni_hostname" extensions are meant for
+                    # the origin, not for the request made to the proxy.
+                    connect_extensions = {
+                        key: value
+                        for key, value in request.extensions.items()
+                        if key not in ("target", "sni_hostname")
+                    }
                     connect_request = Request(
                         method=b"CONNECT",
                         url=connect_url,
                         headers=connect_headers,
-                        extensions=request.extensions,
+                        extensions=connect_extensions,
                     )
                     connect_response = await self._connection.handle_async_request(
                         connect_request
